@@ -461,432 +461,6 @@ theorem takeLoop_run (S : Schema) (d : Dfa) (fty : TypeId) (os : Nat) (oec : Int
         exact e2
       · exact takeLoop_run S d fty os oec total rest' _ q _ tk h
 
-/-! ### `place_nodes` when it pushes no open end -/
-
-theorem pushOpenEnd_len (S : Schema) : ∀ (n : Nat) (cur : List Node) (fr fr' : List FItem),
-    pushOpenEnd S n cur fr = .ok fr' → fr'.length = fr.length + n
-  | 0, cur, fr, fr', h => by
-    have := pure_ok h
-    subst this; rfl
-  | n + 1, cur, fr, fr', h => by
-    unfold pushOpenEnd at h
-    split at h
-    · simp [throw, throwThe, MonadExceptOf.throw] at h
-    · rename_i node _
-      obtain ⟨q, _, h⟩ := FM.bind_ok h
-      have := pushOpenEnd_len S n node.kids _ fr' h
-      simp at this
-      omega
-
-theorem take_succ_of_getElem? {α : Type} (l : List α) (n : Nat) (x : α) (h : l[n]? = some x) :
-    l.take (n + 1) = l.take n ++ [x] := by
-  rw [List.take_succ, h]; rfl
-
-theorem set_self_of_getElem? {α : Type} : ∀ (l : List α) (n : Nat) (x : α), l[n]? = some x → l.set n x = l
-  | [], _, _, h => by simp at h
-  | a :: l, 0, x, h => by simp at h; simp [h]
-  | a :: l, n + 1, x, h => by
-    simp only [List.getElem?_cons_succ] at h
-    simp [set_self_of_getElem? l n x h]
-
-theorem set_append_last {α : Type} (pre : List α) (x y : α) : (pre ++ [x]).set pre.length y = pre ++ [y] := by
-  induction pre with
-  | nil => rfl
-  | cons a l ih => simp [ih]
-
-/-- **`place_nodes` keeps the frontier coherent with `placed`** — partial: the case in which it pushes
-    no open end onto the frontier (`open_end_count ≤ 0`, stated on the result: the new frontier is not
-    longer than the fittable's depth plus the wrappers).  MISSING: the case `open_end_count > 0`, where
-    the pushed entries carry `content_match_at(child_count)` of the *slice's* nodes and coherence needs
-    that `close_node_start` added no fill in front of them (`fill_before` answers the empty filling when
-    the children match as they are). -/
-theorem placeNodes_coh_partial {S : Schema} (hts : TextStableP S) (hdet : DetS S) (hf : FillersOK S) (hw : WrapOK S)
-    (hlab : LabelsOK S) (D g : Nat) (base : List FItem) (st : FitState) (inv : InStep st)
-    (hcoh : Coh S D g base 0 st.frontier st.placed)
-    (f : Fittable) (hfit : findFittable S st = .ok (some f)) (st' : FitState)
-    (h : placeNodes S st f = .ok st')
-    (hnopush : st'.frontier.length ≤ f.frontierDepth + 1 + (f.wrap.getD []).length) :
-    ∃ g', g' ≤ g ∧ Coh S D g' base 0 st'.frontier st'.placed := by
-  obtain ⟨lvl, it, hsd, hlvl, hpar, hit, kind, _⟩ := findFittable_kind S st f hfit
-  have hfragment := fragment_eq_lvl hlvl hpar
-  have hfdlt : f.frontierDepth < st.frontier.length := by
-    rcases Nat.lt_or_ge f.frontierDepth st.frontier.length with h1 | h1
-    · exact h1
-    · rw [List.getElem?_eq_none h1] at hit; simp at hit
-  obtain ⟨c1, hc1, hc1f, hc1s⟩ := closeMany_ok S hdet hf (st.frontier.length - 1 - f.frontierDepth)
-    st.frontier st.placed inv.frok (by omega) inv.sp
-  let pre := st.frontier.take f.frontierDepth
-  have hprelen : pre.length = f.frontierDepth := by
-    simp only [pre, List.length_take]; omega
-  have hc1f' : c1.1 = pre ++ [it] := by
-    rw [hc1f, show st.frontier.length - (st.frontier.length - 1 - f.frontierDepth) = f.frontierDepth + 1 by omega]
-    exact take_succ_of_getElem? _ _ _ hit
-  have hc1len : c1.1.length = f.frontierDepth + 1 := by rw [hc1f']; simp [hprelen]
-  have hc1ok : FrOK c1.1 := by rw [hc1f]; exact inv.frok.take _
-  have hc1last : c1.1.getLast? = some it := by rw [hc1f']; simp
-  obtain ⟨q, hq⟩ := inv.frok it (List.mem_of_getElem? hit)
-  -- coherence after closing, with the ghost level cut down to the fittable's depth
-  have hcoh1 : Coh S D (min g f.frontierDepth) base 0 c1.1 c1.2 := by
-    refine Coh_congr_g S D g _ base c1.1 0 c1.2 ?_ (closeMany_coh S D g base _ _ _ c1 hc1 hcoh)
-    intro j _ hj
-    rw [hc1len] at hj
-    omega
-  have hchain : ChainFrom S (S.dfa it.ty) q (f.wrap.getD []) := by
-    cases kind with
-    | direct _ _ _ _ _ _ hwn => rw [hwn]; trivial
-    | inject _ _ _ _ _ _ _ hwn => rw [hwn]; trivial
-    | empty _ _ _ _ hwn => rw [hwn]; trivial
-    | wrap fst q' w hfst hq' hfw _ hwn =>
-      rw [hwn]
-      rw [hq] at hq'
-      simp only [Option.some.injEq] at hq'
-      subst hq'
-      exact findWrappingTypes_chain S _ _ _ w hfw
-  obtain ⟨c2, hc2, hc2ok, hc2len, hc2s, _, hc2pre, hc2top⟩ :=
-    openMany_ok S hw (f.wrap.getD []) c1.1 c1.2 it q hc1last hq hchain hc1ok hc1s
-  rw [hc1len] at hc2len hc2top
-  simp only [Nat.add_sub_cancel] at hc2top
-  have hcoh2 : Coh S D (min g f.frontierDepth) base 0 c2.1 c2.2 := by
-    have h2 := hc2
-    rw [hc1f'] at h2
-    refine openMany_coh hts D _ base (f.wrap.getD []) pre it c1.2 q hq hchain (by rw [hprelen]; omega) c2 h2 ?_
-    rw [← hc1f']; exact hcoh1
-  have hitem : ∃ item q0, c2.1[f.frontierDepth]? = some item ∧ item.st = some q0 ∧ item.ty = it.ty ∧
-      (f.wrap.getD [] = [] → item = it ∧ q0 = q) ∧
-      (∀ w0 rest, f.wrap.getD [] = w0 :: rest → (S.dfa it.ty).matchType q w0 = some q0) := by
-    cases hws : f.wrap.getD [] with
-    | nil =>
-      rw [hws] at hc2
-      have := pure_ok hc2
-      subst this
-      have : c1.1[f.frontierDepth]? = some it := by rw [hc1f']; simp [← hprelen]
-      exact ⟨it, q, this, hq, rfl, fun _ => ⟨rfl, rfl⟩, fun _ _ h => by simp at h⟩
-    | cons w0 rest =>
-      have htop := hc2top w0 rest hws
-      rw [hws] at hchain
-      obtain ⟨q', hq'⟩ := Option.isSome_iff_exists.1 hchain.2.1
-      refine ⟨_, q', htop, by simp [hq'], rfl, fun h => by simp at h, ?_⟩
-      intro w0' rest' h
-      simp only [List.cons.injEq] at h
-      rw [← h.1]; exact hq'
-  obtain ⟨item0, q00, hitem0, hitq0, hitty0, hq0nil, hq0cons⟩ := hitem
-  unfold placeNodes at h
-  rw [FM.bind_eq hc1, FM.bind_eq hc2] at h
-  simp only [hfragment] at h
-  obtain ⟨item, hgi, h⟩ := FM.bind_ok h
-  have hie : item = item0 := by
-    have := getItem_ok hgi
-    rw [hitem0] at this
-    simpa using this.symm
-  subst hie
-  obtain ⟨q0, hgs, h⟩ := FM.bind_ok h
-  have hq0e : q0 = q00 := by
-    have := getSt_ok hgs
-    rw [hitq0] at this
-    simpa using this.symm
-  subst hq0e
-  obtain ⟨q1, hq1, h⟩ := FM.bind_ok h
-  have hq1 := liftRaise_ok hq1
-  obtain ⟨tk, htk, h⟩ := FM.bind_ok h
-  obtain ⟨p, hp, h⟩ := FM.bind_ok h
-  obtain ⟨top, _, h⟩ := FM.bind_ok h
-  obtain ⟨c3, hc3, h⟩ := FM.bind_ok h
-  obtain ⟨fr4, hpush, h⟩ := FM.bind_ok h
-  obtain ⟨u', _, h⟩ := FM.bind_ok h
-  have := pure_ok h
-  subst this
-  simp only at hnopush ⊢
-  have hset_len : (c2.1.set f.frontierDepth ⟨item.ty, some tk.2.1⟩).length = c2.1.length := List.length_set
-  have hset_ok : FrOK (c2.1.set f.frontierDepth ⟨item.ty, some tk.2.1⟩) := FrOK_set hc2ok _ _ ⟨_, rfl⟩
-  cases hws : f.wrap.getD [] with
-  | cons w0 rest =>
-    rw [hws] at hnopush hc2len
-    -- wrappers were opened: nothing is taken, the frontier entry keeps its match
-    have hnothing : tk = (0, q1, []) ∧ lvl.2 ≠ [] ∧ q1 = q0 := by
-      cases kind with
-      | direct _ _ _ _ _ _ hwn => rw [hwn] at hws; simp at hws
-      | inject _ _ _ _ _ _ _ hwn => rw [hwn] at hws; simp at hws
-      | empty _ _ _ _ hwn => rw [hwn] at hws; simp at hws
-      | wrap fst q' w hfst hq' hfw hinj hwn =>
-        rw [hwn] at hws
-        simp only [Option.getD_some] at hws
-        subst hws
-        rw [hq] at hq'
-        simp only [Option.some.injEq] at hq'
-        subst hq'
-        obtain ⟨rest', hl2⟩ : ∃ rest', lvl.2 = fst :: rest' := by
-          cases hl : lvl.2 with
-          | nil => rw [hl] at hfst; simp at hfst
-          | cons a l => rw [hl] at hfst; simp at hfst; subst hfst; exact ⟨l, rfl⟩
-        have hm0 := hq0cons w0 rest (by rw [hwn]; rfl)
-        have hnm : (S.dfa it.ty).matchType q0 (S.tyOf fst) = none := by
-          by_cases hx : S.tyOf fst < S.nodes.size
-          · exact hw.2 it.ty q (S.tyOf fst) w0 rest q0 hx hfw hm0
-          · cases hmm : (S.dfa it.ty).matchType q0 (S.tyOf fst) with
-            | none => rfl
-            | some y => exact absurd (hlab it.ty q0 _ (Dfa.mem_of_matchType hmm)) hx
-        have hq1' : q1 = q0 := by
-          rw [hinj] at hq1
-          simpa [Schema.types, Dfa.run] using hq1.symm
-        rw [hl2, hinj, hq1', hitty0, takeLoop_nomatch S _ _ _ _ _ fst rest' 0 q0 _ hnm] at htk
-        have := pure_ok htk
-        rw [hl2, ← this, hq1']
-        exact ⟨rfl, by simp, rfl⟩
-    obtain ⟨htk0, hlne, hq10⟩ := hnothing
-    subst htk0
-    subst hq10
-    have hsp' : rspineOK f.frontierDepth c2.2 := rspineOK_le _ _ _ (by rw [hc2len]; simp only [List.length_cons]; omega) hc2s
-    have hpe : p = c2.2 := by
-      have := addToFragment_nil _ _ hsp'
-      simp only [fromArray, addNodes, List.foldl_nil] at hp
-      rw [this] at hp
-      simpa using hp.symm
-    subst hpe
-    have hsetid : c2.1.set f.frontierDepth ⟨item.ty, some q1⟩ = c2.1 := by
-      have : (⟨item.ty, some q1⟩ : FItem) = item := by
-        cases item with
-        | mk ty st => simp only at hitq0; rw [hitq0]
-      rw [this]
-      exact set_self_of_getElem? _ _ _ hitem0
-    rw [hsetid] at hc3
-    have hte : ((0 : Nat) == lvl.2.length) = false := by
-      cases hl : lvl.2 with
-      | nil => exact absurd hl hlne
-      | cons a l => rfl
-    simp only [hte, Bool.false_and, Bool.false_eq_true, if_false] at hc3 hpush
-    have := pure_ok hc3
-    subst this
-    have e0 : (-1 : Int).toNat = 0 := rfl
-    rw [e0] at hpush
-    have := pure_ok hpush
-    subst this
-    exact ⟨_, Nat.min_le_left _ _, hcoh2⟩
-  | nil =>
-    rw [hws] at hnopush hc2len
-    simp only [List.length_nil, Nat.add_zero] at hnopush hc2len
-    obtain ⟨hie, hqe⟩ := hq0nil hws
-    subst hie
-    subst hqe
-    have hc2e : c2 = c1 := by
-      rw [hws] at hc2
-      exact (pure_ok hc2).symm
-    subst hc2e
-    -- what was added and the match after it
-    obtain ⟨added, ha1, ha2⟩ := takeLoop_run S _ _ _ _ _ _ _ _ _ tk htk
-    have hrun : (S.dfa item.ty).run q0 (S.types tk.2.2) = some tk.2.1 := by
-      rw [ha1, types_append, Dfa.run_append, hq1]
-      exact ha2
-    have hfr3 : c2.1.set f.frontierDepth ⟨item.ty, some tk.2.1⟩ = pre ++ [⟨item.ty, some tk.2.1⟩] := by
-      rw [hc1f', ← hprelen]
-      exact set_append_last pre item _
-    have hcoh3 : Coh S D (min g f.frontierDepth) base 0 (pre ++ [⟨item.ty, some tk.2.1⟩]) p := by
-      have hp' := hp
-      rw [← hprelen] at hp'
-      refine Coh_top S D _ base (fromArray tk.2.2) item [⟨item.ty, some tk.2.1⟩]
-        (by intro x hx; simp at hx; rw [← hx]) (by simp) pre 0 c2.2 p hp' (by rw [← hc1f']; exact hcoh1) ?_
-      intro F hF
-      exact Coh_base_add hts D _ base _ item q0 tk.2.1 tk.2.2 F hF hitq0 hrun
-    rw [hfr3] at hc3
-    cases hk : ((if (tk.1 == lvl.2.length) = true then
-        ((fsize lvl.2 : Int) + f.sliceDepth) - ((fsize st.unplaced.content : Int) - st.unplaced.openEnd)
-        else -1) : Int).toNat with
-    | zero =>
-      rw [hk] at hpush
-      have := pure_ok hpush
-      subst this
-      rcases ite_ok_cases hc3 with ⟨_, hc3'⟩ | ⟨_, hc3'⟩
-      · obtain ⟨_, e2⟩ := closeFrontierNode_coh S D _ base _ p c3 hc3' hcoh3
-        exact ⟨_, Nat.min_le_left _ _, e2⟩
-      · have := pure_ok hc3'
-        subst this
-        exact ⟨_, Nat.min_le_left _ _, hcoh3⟩
-    | succ k =>
-      exfalso
-      have hte : (tk.1 == lvl.2.length) = true := by
-        cases hb : (tk.1 == lvl.2.length) with
-        | true => rfl
-        | false => rw [hb] at hk; simp at hk
-      rw [hte] at hk
-      simp only [if_true] at hk
-      have hoec : ((fsize lvl.2 : Int) + f.sliceDepth) - ((fsize st.unplaced.content : Int) - st.unplaced.openEnd)
-          = ((k + 1 : Nat) : Int) := by omega
-      simp only [hte, if_true, hoec] at hc3 hpush
-      have hnn : ¬ (((k + 1 : Nat) : Int) < 0) := by omega
-      simp only [hnn, decide_false, Bool.false_and, Bool.and_false, Bool.false_eq_true, if_false] at hc3
-      have := pure_ok hc3
-      subst this
-      simp only [Int.toNat_natCast] at hpush
-      have hl4 := pushOpenEnd_len S (k + 1) lvl.2 _ fr4 hpush
-      simp only [List.length_append, List.length_singleton, hprelen] at hl4
-      omega
-
-/-! ### the state `Fitter.__init__` builds is coherent; every iteration that pushes no open end keeps it -/
-
-theorem mapM_FM_getElem {α β : Type} (f : α → FM β) : ∀ (l : List α) (r : List β), l.mapM f = .ok r →
-    r.length = l.length ∧ ∀ (j : Nat) (a : α), l[j]? = some a → ∃ b, f a = .ok b ∧ r[j]? = some b
-  | [], r, h => by
-    simp only [List.mapM_nil] at h
-    have := pure_ok h
-    subst this
-    exact ⟨rfl, fun j a hj => by simp at hj⟩
-  | x :: l, r, h => by
-    simp only [List.mapM_cons] at h
-    obtain ⟨b, hb, h⟩ := FM.bind_ok h
-    obtain ⟨bs, hbs, h⟩ := FM.bind_ok h
-    have := pure_ok h
-    subst this
-    obtain ⟨ih1, ih2⟩ := mapM_FM_getElem f l bs hbs
-    refine ⟨by simp [ih1], ?_⟩
-    intro j a hj
-    cases j with
-    | zero =>
-      simp only [List.getElem?_cons_zero, Option.some.injEq] at hj
-      subst hj
-      exact ⟨b, hb, rfl⟩
-    | succ j =>
-      simp only [List.getElem?_cons_succ] at hj ⊢
-      exact ih2 j a hj
-
-theorem fitInit_coh (S : Schema) {doc : Node} {f : Nat} {rf : RPos} (hf : doc.resolve f = some rf) (sl : Slice)
-    (st0 : FitState) (h : fitInit S rf sl = .ok st0) :
-    Coh S rf.depth rf.depth st0.frontier 0 st0.frontier st0.placed := by
-  unfold fitInit at h
-  obtain ⟨fr, hfr, h⟩ := FM.bind_ok h
-  have := pure_ok h
-  subst this
-  simp only
-  obtain ⟨hlen, hget⟩ := mapM_FM_getElem _ _ fr hfr
-  simp only [List.length_range] at hlen
-  -- the entries of the frontier
-  have hent : ∀ j, j ≤ rf.depth → ∃ q, fr[j]? = some ⟨S.tyOf (rf.node j), some q⟩ := by
-    intro j hj
-    obtain ⟨b, hb, hb2⟩ := hget j j (by rw [List.getElem?_range (by omega)])
-    obtain ⟨q, _, hb⟩ := FM.bind_ok hb
-    have := pure_ok hb
-    subst this
-    exact ⟨q, hb2⟩
-  -- the levels, from the deepest up
-  have key : ∀ (n i : Nat), i + n = rf.depth →
-      Coh S rf.depth rf.depth fr i (fr.drop i)
-        ((List.range' i n).foldr (fun i acc => [(rf.node (i + 1)).withKids acc]) []) := by
-    intro n
-    induction n with
-    | zero =>
-      intro i hi
-      simp only [Nat.add_zero] at hi
-      subst hi
-      obtain ⟨q, hq⟩ := hent rf.depth (Nat.le_refl _)
-      have hd : fr.drop rf.depth = [⟨S.tyOf (rf.node rf.depth), some q⟩] := by
-        apply List.ext_getElem?
-        intro k
-        rw [List.getElem?_drop]
-        cases k with
-        | zero => simpa using hq
-        | succ k =>
-          rw [List.getElem?_eq_none (by omega)]
-          simp
-      rw [hd]
-      refine ⟨⟨⟨q, q, ?_, rfl, ?_⟩, fun _ h => by omega⟩, trivial⟩
-      · unfold cohStart
-        rw [if_pos (Nat.le_refl _), hq]; rfl
-      · unfold cohKids
-        rw [if_neg (by omega)]
-        rfl
-    | succ n ih =>
-      intro i hi
-      obtain ⟨q, hq⟩ := hent i (by omega)
-      obtain ⟨q1, hq1⟩ := hent (i + 1) (by omega)
-      have hd : fr.drop i = ⟨S.tyOf (rf.node i), some q⟩ :: fr.drop (i + 1) := by
-        rw [List.drop_eq_getElem?_toList_append, hq]; rfl
-      have hd1 : fr.drop (i + 1) = ⟨S.tyOf (rf.node (i + 1)), some q1⟩ :: fr.drop (i + 2) := by
-        rw [List.drop_eq_getElem?_toList_append, hq1]; rfl
-      obtain ⟨t, a, m, k, hn⟩ := resolve_node_isElem hf (i + 1) (by omega) (by omega)
-      have ih' := ih (i + 1) (by omega)
-      rw [hd, List.range'_succ, List.foldr_cons, hn]
-      simp only [Node.withKids]
-      refine ⟨⟨⟨q, q, ?_, rfl, ?_⟩, fun _ _ => ⟨t, a, m, _, [], rfl⟩⟩, ?_⟩
-      · unfold cohStart
-        rw [if_pos (by omega), hq]; rfl
-      · unfold cohKids
-        rw [if_pos ⟨by omega, by omega⟩]
-        rfl
-      · rw [hd1]
-        refine ⟨t, a, m, _, rfl, ?_, ?_⟩
-        · simp [hn, Schema.tyOf, Node.tyOr]
-        · rw [← hd1]; exact ih'
-  have := key rf.depth 0 (by omega)
-  simpa [List.range_eq_range'] using this
-
-/-- the proposition implies the Boolean the driver evaluates -/
-theorem Coh_toB (S : Schema) (D g : Nat) (base : List FItem) : ∀ (fr : List FItem) (i : Nat) (frag : List Node),
-    Coh S D g base i fr frag → frontierCoherentAux S D g base i fr frag = true
-  | [], _, _, _ => rfl
-  | it :: rest, i, frag, ⟨⟨⟨s, q, h1, h2, h3⟩, _⟩, h5⟩ => by
-    unfold frontierCoherentAux
-    unfold cohStart at h1
-    unfold cohKids at h3
-    simp only [h1, Bool.and_eq_true, beq_iff_eq]
-    refine ⟨⟨?_, by rw [h2]; rfl⟩, ?_⟩
-    · rw [h2, ← h3]
-      congr 2
-      by_cases hc : i ≤ g ∧ i < D
-      · simp [hc.1, hc.2]
-      · rw [if_neg hc]
-        have : (decide (i ≤ g) && decide (i < D)) = false := by
-          simp only [Bool.and_eq_false_iff, decide_eq_false_iff_not]
-          by_cases h1 : i ≤ g
-          · exact .inr (fun h2 => hc ⟨h1, h2⟩)
-          · exact .inl h1
-        rw [if_neg (by simpa using hc)]
-    · cases rest with
-      | nil => rfl
-      | cons nxt rest' =>
-        obtain ⟨t, a, m, k, hl, ht, hc⟩ := h5
-        simp only [hl, Bool.and_eq_true, beq_iff_eq]
-        exact ⟨by simp [Schema.tyOf, Node.tyOr, ht], Coh_toB S D g base (nxt :: rest') (i + 1) k hc⟩
-
-/-- one iteration of the loop keeps coherence, as long as `place_nodes` pushes no open end -/
-theorem fitStep_coh_partial {S : Schema} (hts : TextStableP S) (hdet : DetS S) (hf : FillersOK S) (hw : WrapOK S)
-    (hlab : LabelsOK S) (D g : Nat) (base : List FItem) (st : FitState) (inv : InStep st)
-    (hcoh : Coh S D g base 0 st.frontier st.placed) (st' : FitState) (h : fitStep S st = .ok st')
-    (hnopush : ∀ f, findFittable S st = .ok (some f) →
-      st'.frontier.length ≤ f.frontierDepth + 1 + (f.wrap.getD []).length) :
-    ∃ g', g' ≤ g ∧ Coh S D g' base 0 st'.frontier st'.placed := by
-  unfold fitStep at h
-  obtain ⟨f, hfit, h⟩ := FM.bind_ok h
-  cases f with
-  | some f => exact placeNodes_coh_partial hts hdet hf hw hlab D g base st inv hcoh f hfit st' h (hnopush f hfit)
-  | none =>
-    simp only at h
-    obtain ⟨o, ho, h⟩ := FM.bind_ok h
-    cases o with
-    | some st1 =>
-      have := pure_ok h
-      subst this
-      unfold openMore at ho
-      obtain ⟨inner, _, ho⟩ := FM.bind_ok ho
-      split at ho
-      · simp [pure, Except.pure] at ho
-      · split at ho
-        · simp [pure, Except.pure] at ho
-        · have := pure_ok ho
-          simp only [Option.some.injEq] at this
-          subst this
-          exact ⟨g, Nat.le_refl _, hcoh⟩
-    | none =>
-      simp only at h
-      unfold dropNode at h
-      obtain ⟨inner, _, h⟩ := FM.bind_ok h
-      split at h
-      · obtain ⟨c, _, h⟩ := FM.bind_ok h
-        have := pure_ok h
-        subst this
-        exact ⟨g, Nat.le_refl _, hcoh⟩
-      · obtain ⟨c, _, h⟩ := FM.bind_ok h
-        have := pure_ok h
-        subst this
-        exact ⟨g, Nat.le_refl _, hcoh⟩
-
 /-! ### groundwork for the missing case (`open_end_count > 0`) -/
 
 /-- `fill_before(after)` (not to the end) answers the empty filling when `after` matches as it is:
@@ -1029,5 +603,521 @@ theorem pushOpenEnd_coh (S : Schema) (D g : Nat) (base : List FItem) : ∀ (n : 
       simp only
       rw [e2] at hkl
       exact ⟨t3, a3, m3, kk3, hkl, e4.symm, by rw [← e3]; exact e5⟩
+
+/-- what the take loop added last, when `place_nodes` pushes `k + 1` levels: the `close_node_start` image of
+    the last node of the fragment, whose last-child chain has `k + 1` levels (the facts behind
+    `placeTaken_spine`, Proofs/FitInStep.lean) -/
+theorem placeTaken_last (S : Schema) (d : Dfa) (fty : TypeId) (u : Slice) (sd : Nat) (frag : List Node)
+    (hcon : contentAt u.content sd = .ok frag) (hne : frag ≠ [])
+    (hU1 : u.openEnd ≤ spineR u.content) (hU2 : u.openStart ≤ spineL u.content)
+    (hsz : (u.size == 0) = false) (k : Nat)
+    (hk : ((fsize frag : Int) + sd) - ((fsize u.content : Int) - u.openEnd) = ((k + 1 : Nat) : Int))
+    (q1 : Nat) (add0 : List Node) (tk : Nat × Nat × List Node)
+    (htk : takeLoop S d fty (u.openStart - sd) ((k + 1 : Nat) : Int) frag.length frag 0 q1 add0 = .ok tk)
+    (htoEnd : tk.1 = frag.length) :
+    rspineOK (k + 1) frag ∧ ∃ pre r ln os', frag.getLast? = some ln ∧ tk.2.2 = pre ++ [r] ∧
+      closeNodeStart S os' (ln.withMarks ((S.nodeType fty).allowedMarks ln.marks)) ((k + 1 : Nat) : Int) = .ok r := by
+  obtain ⟨hpure, hsd⟩ := pure_of_size sd u.content frag u.openEnd hcon hne hU1 (by omega)
+  have e1 := pureTo_spineR sd _ _ hpure
+  have e2 := pureTo_fsize sd _ _ hpure
+  have e3 := pureTo_spineL sd _ _ hpure
+  have hkoe : k + 1 + sd = u.openEnd := by omega
+  have hsp : rspineOK (k + 1) frag := spineR_rspineOK _ _ (by omega)
+  refine ⟨hsp, ?_⟩
+  rcases takeLoop_last S d fty _ _ _ frag 0 q1 add0 tk htk htoEnd (by simp) hne with
+    ⟨_, ⟨n, hn, hnk⟩, hos, _⟩ | ⟨pre, r, ln, os', hl, hadd, hc⟩
+  · exfalso
+    subst hn
+    obtain ⟨t, a, m, kids, h1, _⟩ := hsp
+    simp only [List.getLast?_singleton, Option.some.injEq] at h1
+    subst h1
+    simp only [Node.kids] at hnk
+    obtain ⟨z1, z2⟩ := fsize_zero_spine kids hnk
+    rw [spineR_singleton_elem, z1] at e1
+    simp only [spineL, z2] at e3
+    simp only [fsize, Node.size_elem, hnk] at e2
+    simp only [Slice.size, beq_eq_false_iff_ne, ne_eq] at hsz
+    apply hsz
+    omega
+  · exact ⟨pre, r, ln, os', hl, hadd, hc⟩
+
+/-! ### `place_nodes` keeps coherence -/
+
+theorem pushOpenEnd_len (S : Schema) : ∀ (n : Nat) (cur : List Node) (fr fr' : List FItem),
+    pushOpenEnd S n cur fr = .ok fr' → fr'.length = fr.length + n
+  | 0, cur, fr, fr', h => by
+    have := pure_ok h
+    subst this; rfl
+  | n + 1, cur, fr, fr', h => by
+    unfold pushOpenEnd at h
+    split at h
+    · simp [throw, throwThe, MonadExceptOf.throw] at h
+    · rename_i node _
+      obtain ⟨q, _, h⟩ := FM.bind_ok h
+      have := pushOpenEnd_len S n node.kids _ fr' h
+      simp at this
+      omega
+
+theorem take_succ_of_getElem? {α : Type} (l : List α) (n : Nat) (x : α) (h : l[n]? = some x) :
+    l.take (n + 1) = l.take n ++ [x] := by
+  rw [List.take_add_one, h]; rfl
+
+theorem set_self_of_getElem? {α : Type} : ∀ (l : List α) (n : Nat) (x : α), l[n]? = some x → l.set n x = l
+  | [], _, _, h => by simp at h
+  | a :: l, 0, x, h => by simp at h; simp [h]
+  | a :: l, n + 1, x, h => by
+    simp only [List.getElem?_cons_succ] at h
+    simp [set_self_of_getElem? l n x h]
+
+theorem set_append_last {α : Type} (pre : List α) (x y : α) : (pre ++ [x]).set pre.length y = pre ++ [y] := by
+  induction pre with
+  | nil => rfl
+  | cons a l ih => simp [ih]
+
+/-- **`place_nodes` keeps the frontier coherent with `placed`** (the unplaced slice well-formed and not of
+    size 0, as for `placeNodes_inStep`) -/
+theorem placeNodes_coh {S : Schema} (hts : TextStableP S) (hdet : DetS S) (hf : FillersOK S) (hw : WrapOK S)
+    (hlab : LabelsOK S) (D g : Nat) (base : List FItem) (st : FitState) (inv : InStep st)
+    (hcoh : Coh S D g base 0 st.frontier st.placed)
+    (hU1 : st.unplaced.openEnd ≤ spineR st.unplaced.content)
+    (hU2 : st.unplaced.openStart ≤ spineL st.unplaced.content) (hsz : (st.unplaced.size == 0) = false)
+    (f : Fittable) (hfit : findFittable S st = .ok (some f)) (st' : FitState)
+    (h : placeNodes S st f = .ok st') :
+    ∃ g', g' ≤ g ∧ Coh S D g' base 0 st'.frontier st'.placed := by
+  obtain ⟨lvl, it, hsd, hlvl, hpar, hit, kind, _⟩ := findFittable_kind S st f hfit
+  have hfragment := fragment_eq_lvl hlvl hpar
+  have hfdlt : f.frontierDepth < st.frontier.length := by
+    rcases Nat.lt_or_ge f.frontierDepth st.frontier.length with h1 | h1
+    · exact h1
+    · rw [List.getElem?_eq_none h1] at hit; simp at hit
+  obtain ⟨c1, hc1, hc1f, hc1s⟩ := closeMany_ok S hdet hf (st.frontier.length - 1 - f.frontierDepth)
+    st.frontier st.placed inv.frok (by omega) inv.sp
+  let pre := st.frontier.take f.frontierDepth
+  have hprelen : pre.length = f.frontierDepth := by
+    simp only [pre, List.length_take]; omega
+  have hc1f' : c1.1 = pre ++ [it] := by
+    rw [hc1f, show st.frontier.length - (st.frontier.length - 1 - f.frontierDepth) = f.frontierDepth + 1 by omega]
+    exact take_succ_of_getElem? _ _ _ hit
+  have hc1len : c1.1.length = f.frontierDepth + 1 := by rw [hc1f']; simp [hprelen]
+  have hc1ok : FrOK c1.1 := by rw [hc1f]; exact inv.frok.take _
+  have hc1last : c1.1.getLast? = some it := by rw [hc1f']; simp
+  obtain ⟨q, hq⟩ := inv.frok it (List.mem_of_getElem? hit)
+  -- coherence after closing, with the ghost level cut down to the fittable's depth
+  have hcoh1 : Coh S D (min g f.frontierDepth) base 0 c1.1 c1.2 := by
+    refine Coh_congr_g S D g _ base c1.1 0 c1.2 ?_ (closeMany_coh S D g base _ _ _ c1 hc1 hcoh)
+    intro j _ hj
+    rw [hc1len] at hj
+    omega
+  have hchain : ChainFrom S (S.dfa it.ty) q (f.wrap.getD []) := by
+    cases kind with
+    | direct _ _ _ _ _ _ hwn => rw [hwn]; trivial
+    | inject _ _ _ _ _ _ _ hwn => rw [hwn]; trivial
+    | empty _ _ _ _ hwn => rw [hwn]; trivial
+    | wrap fst q' w hfst hq' hfw _ hwn =>
+      rw [hwn]
+      rw [hq] at hq'
+      simp only [Option.some.injEq] at hq'
+      subst hq'
+      exact findWrappingTypes_chain S _ _ _ w hfw
+  obtain ⟨c2, hc2, hc2ok, hc2len, hc2s, _, hc2pre, hc2top⟩ :=
+    openMany_ok S hw (f.wrap.getD []) c1.1 c1.2 it q hc1last hq hchain hc1ok hc1s
+  rw [hc1len] at hc2len hc2top
+  simp only [Nat.add_sub_cancel] at hc2top
+  have hcoh2 : Coh S D (min g f.frontierDepth) base 0 c2.1 c2.2 := by
+    have h2 := hc2
+    rw [hc1f'] at h2
+    refine openMany_coh hts D _ base (f.wrap.getD []) pre it c1.2 q hq hchain (by rw [hprelen]; omega) c2 h2 ?_
+    rw [← hc1f']; exact hcoh1
+  have hitem : ∃ item q0, c2.1[f.frontierDepth]? = some item ∧ item.st = some q0 ∧ item.ty = it.ty ∧
+      (f.wrap.getD [] = [] → item = it ∧ q0 = q) ∧
+      (∀ w0 rest, f.wrap.getD [] = w0 :: rest → (S.dfa it.ty).matchType q w0 = some q0) := by
+    cases hws : f.wrap.getD [] with
+    | nil =>
+      rw [hws] at hc2
+      have := pure_ok hc2
+      subst this
+      have : c1.1[f.frontierDepth]? = some it := by rw [hc1f']; simp [← hprelen]
+      exact ⟨it, q, this, hq, rfl, fun _ => ⟨rfl, rfl⟩, fun _ _ h => by simp at h⟩
+    | cons w0 rest =>
+      have htop := hc2top w0 rest hws
+      rw [hws] at hchain
+      obtain ⟨q', hq'⟩ := Option.isSome_iff_exists.1 hchain.2.1
+      refine ⟨_, q', htop, by simp [hq'], rfl, fun h => by simp at h, ?_⟩
+      intro w0' rest' h
+      simp only [List.cons.injEq] at h
+      rw [← h.1]; exact hq'
+  obtain ⟨item0, q00, hitem0, hitq0, hitty0, hq0nil, hq0cons⟩ := hitem
+  unfold placeNodes at h
+  rw [FM.bind_eq hc1, FM.bind_eq hc2] at h
+  simp only [hfragment] at h
+  obtain ⟨item, hgi, h⟩ := FM.bind_ok h
+  have hie : item = item0 := by
+    have := getItem_ok hgi
+    rw [hitem0] at this
+    simpa using this.symm
+  subst hie
+  obtain ⟨q0, hgs, h⟩ := FM.bind_ok h
+  have hq0e : q0 = q00 := by
+    have := getSt_ok hgs
+    rw [hitq0] at this
+    simpa using this.symm
+  subst hq0e
+  obtain ⟨q1, hq1, h⟩ := FM.bind_ok h
+  have hq1 := liftRaise_ok hq1
+  obtain ⟨tk, htk, h⟩ := FM.bind_ok h
+  obtain ⟨p, hp, h⟩ := FM.bind_ok h
+  obtain ⟨top, _, h⟩ := FM.bind_ok h
+  obtain ⟨c3, hc3, h⟩ := FM.bind_ok h
+  obtain ⟨fr4, hpush, h⟩ := FM.bind_ok h
+  obtain ⟨u', _, h⟩ := FM.bind_ok h
+  have := pure_ok h
+  subst this
+  simp only
+  have hset_len : (c2.1.set f.frontierDepth ⟨item.ty, some tk.2.1⟩).length = c2.1.length := List.length_set
+  have hset_ok : FrOK (c2.1.set f.frontierDepth ⟨item.ty, some tk.2.1⟩) := FrOK_set hc2ok _ _ ⟨_, rfl⟩
+  cases hws : f.wrap.getD [] with
+  | cons w0 rest =>
+    rw [hws] at hc2len
+    -- wrappers were opened: nothing is taken, the frontier entry keeps its match
+    have hnothing : tk = (0, q1, []) ∧ lvl.2 ≠ [] ∧ q1 = q0 := by
+      cases kind with
+      | direct _ _ _ _ _ _ hwn => rw [hwn] at hws; simp at hws
+      | inject _ _ _ _ _ _ _ hwn => rw [hwn] at hws; simp at hws
+      | empty _ _ _ _ hwn => rw [hwn] at hws; simp at hws
+      | wrap fst q' w hfst hq' hfw hinj hwn =>
+        rw [hwn] at hws
+        simp only [Option.getD_some] at hws
+        subst hws
+        rw [hq] at hq'
+        simp only [Option.some.injEq] at hq'
+        subst hq'
+        obtain ⟨rest', hl2⟩ : ∃ rest', lvl.2 = fst :: rest' := by
+          cases hl : lvl.2 with
+          | nil => rw [hl] at hfst; simp at hfst
+          | cons a l => rw [hl] at hfst; simp at hfst; subst hfst; exact ⟨l, rfl⟩
+        have hm0 := hq0cons w0 rest (by rw [hwn]; rfl)
+        have hnm : (S.dfa it.ty).matchType q0 (S.tyOf fst) = none := by
+          by_cases hx : S.tyOf fst < S.nodes.size
+          · exact hw.2 it.ty q (S.tyOf fst) w0 rest q0 hx hfw hm0
+          · cases hmm : (S.dfa it.ty).matchType q0 (S.tyOf fst) with
+            | none => rfl
+            | some y => exact absurd (hlab it.ty q0 _ (Dfa.mem_of_matchType hmm)) hx
+        have hq1' : q1 = q0 := by
+          rw [hinj] at hq1
+          simpa [Schema.types, Dfa.run] using hq1.symm
+        rw [hl2, hinj, hq1', hitty0, takeLoop_nomatch S _ _ _ _ _ fst rest' 0 q0 _ hnm] at htk
+        have := pure_ok htk
+        rw [hl2, ← this, hq1']
+        exact ⟨rfl, by simp, rfl⟩
+    obtain ⟨htk0, hlne, hq10⟩ := hnothing
+    subst htk0
+    subst hq10
+    have hsp' : rspineOK f.frontierDepth c2.2 := rspineOK_le _ _ _ (by rw [hc2len]; simp only [List.length_cons]; omega) hc2s
+    have hpe : p = c2.2 := by
+      have := addToFragment_nil _ _ hsp'
+      simp only [fromArray, addNodes, List.foldl_nil] at hp
+      rw [this] at hp
+      simpa using hp.symm
+    subst hpe
+    have hsetid : c2.1.set f.frontierDepth ⟨item.ty, some q1⟩ = c2.1 := by
+      have : (⟨item.ty, some q1⟩ : FItem) = item := by
+        cases item with
+        | mk ty st => simp only at hitq0; rw [hitq0]
+      rw [this]
+      exact set_self_of_getElem? _ _ _ hitem0
+    rw [hsetid] at hc3
+    have hte : ((0 : Nat) == lvl.2.length) = false := by
+      cases hl : lvl.2 with
+      | nil => exact absurd hl hlne
+      | cons a l => rfl
+    simp only [hte, Bool.false_and, Bool.false_eq_true, if_false] at hc3 hpush
+    have := pure_ok hc3
+    subst this
+    have e0 : (-1 : Int).toNat = 0 := rfl
+    rw [e0] at hpush
+    have := pure_ok hpush
+    subst this
+    exact ⟨_, Nat.min_le_left _ _, hcoh2⟩
+  | nil =>
+    rw [hws] at hc2len
+    simp only [List.length_nil, Nat.add_zero] at hc2len
+    obtain ⟨hie, hqe⟩ := hq0nil hws
+    subst hie
+    subst hqe
+    have hc2e : c2 = c1 := by
+      rw [hws] at hc2
+      exact (pure_ok hc2).symm
+    subst hc2e
+    -- what was added and the match after it
+    obtain ⟨added, ha1, ha2⟩ := takeLoop_run S _ _ _ _ _ _ _ _ _ tk htk
+    have hrun : (S.dfa item.ty).run q0 (S.types tk.2.2) = some tk.2.1 := by
+      rw [ha1, types_append, Dfa.run_append, hq1]
+      exact ha2
+    have hfr3 : c2.1.set f.frontierDepth ⟨item.ty, some tk.2.1⟩ = pre ++ [⟨item.ty, some tk.2.1⟩] := by
+      rw [hc1f', ← hprelen]
+      exact set_append_last pre item _
+    have hcoh3 : Coh S D (min g f.frontierDepth) base 0 (pre ++ [⟨item.ty, some tk.2.1⟩]) p := by
+      have hp' := hp
+      rw [← hprelen] at hp'
+      refine Coh_top S D _ base (fromArray tk.2.2) item [⟨item.ty, some tk.2.1⟩]
+        (by intro x hx; simp at hx; rw [← hx]) (by simp) pre 0 c2.2 p hp' (by rw [← hc1f']; exact hcoh1) ?_
+      intro F hF
+      exact Coh_base_add hts D _ base _ item q0 tk.2.1 tk.2.2 F hF hitq0 hrun
+    rw [hfr3] at hc3
+    cases hk : ((if (tk.1 == lvl.2.length) = true then
+        ((fsize lvl.2 : Int) + f.sliceDepth) - ((fsize st.unplaced.content : Int) - st.unplaced.openEnd)
+        else -1) : Int).toNat with
+    | zero =>
+      rw [hk] at hpush
+      have := pure_ok hpush
+      subst this
+      rcases ite_ok_cases hc3 with ⟨_, hc3'⟩ | ⟨_, hc3'⟩
+      · obtain ⟨_, e2⟩ := closeFrontierNode_coh S D _ base _ p c3 hc3' hcoh3
+        exact ⟨_, Nat.min_le_left _ _, e2⟩
+      · have := pure_ok hc3'
+        subst this
+        exact ⟨_, Nat.min_le_left _ _, hcoh3⟩
+    | succ k =>
+      have hte : (tk.1 == lvl.2.length) = true := by
+        cases hb : (tk.1 == lvl.2.length) with
+        | true => rfl
+        | false => rw [hb] at hk; simp at hk
+      rw [hte] at hk
+      simp only [if_true] at hk
+      have hoec : ((fsize lvl.2 : Int) + f.sliceDepth) - ((fsize st.unplaced.content : Int) - st.unplaced.openEnd)
+          = ((k + 1 : Nat) : Int) := by omega
+      simp only [hte, if_true, hoec] at hc3 hpush htk
+      have hnn : ¬ (((k + 1 : Nat) : Int) < 0) := by omega
+      simp only [hnn, decide_false, Bool.false_and, Bool.and_false, Bool.false_eq_true, if_false] at hc3
+      have := pure_ok hc3
+      subst this
+      simp only [Int.toNat_natCast] at hpush
+      rw [hfr3] at hset_ok
+      obtain ⟨_, _, hne4⟩ := pushOpenEnd_spec S (k + 1) lvl.2 _ fr4 hpush hset_ok
+      obtain ⟨hsp, pre', r, ln, os', hl, hadd, hcl⟩ := placeTaken_last S (S.dfa item.ty) item.ty st.unplaced
+        f.sliceDepth lvl.2 (sliceLevel_contentAt hlvl) (hne4 (by omega)) hU1 hU2 hsz k hoec q1 (f.inject.getD []) tk htk
+        (by simpa using hte)
+      obtain ⟨pushed, t, a, m, kk, e1, e2, ⟨e0, rest0, e3, e4⟩, e5⟩ :=
+        pushOpenEnd_coh S D (min g f.frontierDepth) base k lvl.2 _ fr4 ln os' _ r (0 + pre.length + 1) hpush hl
+          (rspineOK_singleton_of_last hl hsp) hcl (by rw [hprelen]; omega)
+      subst e2
+      have hp' := hp
+      rw [← hprelen] at hp'
+      have hfin : Coh S D (min g f.frontierDepth) base 0 (pre ++ (⟨item.ty, some tk.2.1⟩ :: pushed)) p := by
+        refine Coh_top S D _ base (fromArray tk.2.2) item (⟨item.ty, some tk.2.1⟩ :: pushed)
+          (by intro x hx; simp at hx; rw [← hx]) (by simp) pre 0 c2.2 p hp' (by rw [← hc1f']; exact hcoh1) ?_
+        intro F hF
+        have hb := Coh_base_add hts D _ base _ item q0 tk.2.1 tk.2.2 F hF hitq0 hrun
+        refine ⟨hb.1, ?_⟩
+        rw [e3]
+        simp only
+        refine ⟨t, a, m, kk, ?_, e4.symm, by rw [← e3]; exact e5⟩
+        rw [hadd]
+        exact fappend_getLast_elem F _ t a m kk (fromArray_append_elem pre' t a m kk)
+      refine ⟨min g f.frontierDepth, Nat.min_le_left _ _, ?_⟩
+      rw [e1]
+      simpa using hfin
+
+/-! ### the state `Fitter.__init__` builds is coherent; every iteration that pushes no open end keeps it -/
+
+theorem mapM_FM_getElem {α β : Type} (f : α → FM β) : ∀ (l : List α) (r : List β), l.mapM f = .ok r →
+    r.length = l.length ∧ ∀ (j : Nat) (a : α), l[j]? = some a → ∃ b, f a = .ok b ∧ r[j]? = some b
+  | [], r, h => by
+    simp only [List.mapM_nil] at h
+    have := pure_ok h
+    subst this
+    exact ⟨rfl, fun j a hj => by simp at hj⟩
+  | x :: l, r, h => by
+    simp only [List.mapM_cons] at h
+    obtain ⟨b, hb, h⟩ := FM.bind_ok h
+    obtain ⟨bs, hbs, h⟩ := FM.bind_ok h
+    have := pure_ok h
+    subst this
+    obtain ⟨ih1, ih2⟩ := mapM_FM_getElem f l bs hbs
+    refine ⟨by simp [ih1], ?_⟩
+    intro j a hj
+    cases j with
+    | zero =>
+      simp only [List.getElem?_cons_zero, Option.some.injEq] at hj
+      subst hj
+      exact ⟨b, hb, rfl⟩
+    | succ j =>
+      simp only [List.getElem?_cons_succ] at hj ⊢
+      exact ih2 j a hj
+
+theorem fitInit_coh (S : Schema) {doc : Node} {f : Nat} {rf : RPos} (hf : doc.resolve f = some rf) (sl : Slice)
+    (st0 : FitState) (h : fitInit S rf sl = .ok st0) :
+    Coh S rf.depth rf.depth st0.frontier 0 st0.frontier st0.placed := by
+  unfold fitInit at h
+  obtain ⟨fr, hfr, h⟩ := FM.bind_ok h
+  have := pure_ok h
+  subst this
+  simp only
+  obtain ⟨hlen, hget⟩ := mapM_FM_getElem _ _ fr hfr
+  simp only [List.length_range] at hlen
+  -- the entries of the frontier
+  have hent : ∀ j, j ≤ rf.depth → ∃ q, fr[j]? = some ⟨S.tyOf (rf.node j), some q⟩ := by
+    intro j hj
+    obtain ⟨b, hb, hb2⟩ := hget j j (by rw [List.getElem?_range (by omega)])
+    obtain ⟨q, _, hb⟩ := FM.bind_ok hb
+    have := pure_ok hb
+    subst this
+    exact ⟨q, hb2⟩
+  -- the levels, from the deepest up
+  have key : ∀ (n i : Nat), i + n = rf.depth →
+      Coh S rf.depth rf.depth fr i (fr.drop i)
+        ((List.range' i n).foldr (fun i acc => [(rf.node (i + 1)).withKids acc]) []) := by
+    intro n
+    induction n with
+    | zero =>
+      intro i hi
+      simp only [Nat.add_zero] at hi
+      subst hi
+      obtain ⟨q, hq⟩ := hent rf.depth (Nat.le_refl _)
+      have hd : fr.drop rf.depth = [⟨S.tyOf (rf.node rf.depth), some q⟩] := by
+        apply List.ext_getElem?
+        intro k
+        rw [List.getElem?_drop]
+        cases k with
+        | zero => simpa using hq
+        | succ k =>
+          rw [List.getElem?_eq_none (by omega)]
+          simp
+      rw [hd]
+      refine ⟨⟨⟨q, q, ?_, rfl, ?_⟩, fun _ h => by omega⟩, trivial⟩
+      · unfold cohStart
+        rw [if_pos (Nat.le_refl _), hq]; rfl
+      · unfold cohKids
+        rw [if_neg (by omega)]
+        rfl
+    | succ n ih =>
+      intro i hi
+      obtain ⟨q, hq⟩ := hent i (by omega)
+      obtain ⟨q1, hq1⟩ := hent (i + 1) (by omega)
+      have hd : fr.drop i = ⟨S.tyOf (rf.node i), some q⟩ :: fr.drop (i + 1) := by
+        rw [List.drop_eq_getElem?_toList_append, hq]; rfl
+      have hd1 : fr.drop (i + 1) = ⟨S.tyOf (rf.node (i + 1)), some q1⟩ :: fr.drop (i + 2) := by
+        rw [List.drop_eq_getElem?_toList_append, hq1]; rfl
+      obtain ⟨t, a, m, k, hn⟩ := resolve_node_isElem hf (i + 1) (by omega) (by omega)
+      have ih' := ih (i + 1) (by omega)
+      rw [hd, List.range'_succ, List.foldr_cons, hn]
+      simp only [Node.withKids]
+      refine ⟨⟨⟨q, q, ?_, rfl, ?_⟩, fun _ _ => ⟨t, a, m, _, [], rfl⟩⟩, ?_⟩
+      · unfold cohStart
+        rw [if_pos (by omega), hq]; rfl
+      · unfold cohKids
+        rw [if_pos ⟨by omega, by omega⟩]
+        rfl
+      · rw [hd1]
+        refine ⟨t, a, m, _, rfl, ?_, ?_⟩
+        · simp [hn, Schema.tyOf, Node.tyOr]
+        · rw [← hd1]; exact ih'
+  have := key rf.depth 0 (by omega)
+  simpa [List.range_eq_range'] using this
+
+/-- the proposition implies the Boolean the driver evaluates -/
+theorem Coh_toB (S : Schema) (D g : Nat) (base : List FItem) : ∀ (fr : List FItem) (i : Nat) (frag : List Node),
+    Coh S D g base i fr frag → frontierCoherentAux S D g base i fr frag = true
+  | [], _, _, _ => rfl
+  | it :: rest, i, frag, ⟨⟨⟨s, q, h1, h2, h3⟩, _⟩, h5⟩ => by
+    unfold frontierCoherentAux
+    unfold cohStart at h1
+    unfold cohKids at h3
+    simp only [h1, Bool.and_eq_true, beq_iff_eq]
+    refine ⟨⟨?_, by rw [h2]; rfl⟩, ?_⟩
+    · rw [h2, ← h3]
+      congr 2
+      by_cases hc : i ≤ g ∧ i < D
+      · simp [hc.1, hc.2]
+      · rw [if_neg hc]
+        have : (decide (i ≤ g) && decide (i < D)) = false := by
+          simp only [Bool.and_eq_false_iff, decide_eq_false_iff_not]
+          by_cases h1 : i ≤ g
+          · exact .inr (fun h2 => hc ⟨h1, h2⟩)
+          · exact .inl h1
+        rw [if_neg (by simpa using hc)]
+    · cases rest with
+      | nil => rfl
+      | cons nxt rest' =>
+        obtain ⟨t, a, m, k, hl, ht, hc⟩ := h5
+        simp only [hl, Bool.and_eq_true, beq_iff_eq]
+        exact ⟨by simp [Schema.tyOf, Node.tyOr, ht], Coh_toB S D g base (nxt :: rest') (i + 1) k hc⟩
+
+/-- one iteration of the loop keeps coherence -/
+theorem fitStep_coh {S : Schema} (hts : TextStableP S) (hdet : DetS S) (hf : FillersOK S) (hw : WrapOK S)
+    (hlab : LabelsOK S) (D g : Nat) (base : List FItem) (st : FitState) (inv : InStep st)
+    (hcoh : Coh S D g base 0 st.frontier st.placed) (hwf : st.unplaced.wf = true)
+    (hsz : (st.unplaced.size == 0) = false) (st' : FitState) (h : fitStep S st = .ok st') :
+    ∃ g', g' ≤ g ∧ Coh S D g' base 0 st'.frontier st'.placed := by
+  simp only [Slice.wf, Bool.and_eq_true, decide_eq_true_eq] at hwf
+  unfold fitStep at h
+  obtain ⟨f, hfit, h⟩ := FM.bind_ok h
+  cases f with
+  | some f => exact placeNodes_coh hts hdet hf hw hlab D g base st inv hcoh hwf.2 hwf.1 hsz f hfit st' h
+  | none =>
+    simp only at h
+    obtain ⟨o, ho, h⟩ := FM.bind_ok h
+    cases o with
+    | some st1 =>
+      have := pure_ok h
+      subst this
+      unfold openMore at ho
+      obtain ⟨inner, _, ho⟩ := FM.bind_ok ho
+      split at ho
+      · simp [pure, Except.pure] at ho
+      · split at ho
+        · simp [pure, Except.pure] at ho
+        · have := pure_ok ho
+          simp only [Option.some.injEq] at this
+          subst this
+          exact ⟨g, Nat.le_refl _, hcoh⟩
+    | none =>
+      simp only at h
+      unfold dropNode at h
+      obtain ⟨inner, _, h⟩ := FM.bind_ok h
+      split at h
+      · obtain ⟨c, _, h⟩ := FM.bind_ok h
+        have := pure_ok h
+        subst this
+        exact ⟨g, Nat.le_refl _, hcoh⟩
+      · obtain ⟨c, _, h⟩ := FM.bind_ok h
+        have := pure_ok h
+        subst this
+        exact ⟨g, Nat.le_refl _, hcoh⟩
+
+/-- the loop keeps `placed` and the frontier in step and coherent while the unplaced slice stays well-formed -/
+theorem fitLoop_coh {S : Schema} (hts : TextStableP S) (hdet : DetS S) (hf : FillersOK S) (hw : WrapOK S)
+    (hlab : LabelsOK S) (D : Nat) (base : List FItem) : ∀ (fuel : Nat) (g : Nat) (st st' : FitState),
+    fitLoop S fuel st = .ok st' → InStep st → Coh S D g base 0 st.frontier st.placed →
+    fitLoopAll S (fun s => s.unplaced.wf) fuel st = some true →
+    InStep st' ∧ ∃ g', g' ≤ g ∧ Coh S D g' base 0 st'.frontier st'.placed
+  | 0, g, st, st', h, inv, hc, _ => by
+    unfold fitLoop at h
+    split at h
+    · have := pure_ok h
+      subst this; exact ⟨inv, g, Nat.le_refl _, hc⟩
+    · simp [throw, throwThe, MonadExceptOf.throw] at h
+  | fuel + 1, g, st, st', h, inv, hc, hall => by
+    unfold fitLoop at h
+    split at h
+    · have := pure_ok h
+      subst this; exact ⟨inv, g, Nat.le_refl _, hc⟩
+    · rename_i hsz
+      obtain ⟨st1, h1, h⟩ := FM.bind_ok h
+      unfold fitLoopAll at hall
+      rw [if_neg hsz] at hall
+      simp only [h1] at hall
+      cases hr : fitLoopAll S (fun s => s.unplaced.wf) fuel st1 with
+      | none => rw [hr] at hall; simp at hall
+      | some b =>
+        rw [hr] at hall
+        simp only [Option.map_some, Option.some.injEq, Bool.and_eq_true] at hall
+        obtain ⟨hb, hwf⟩ := hall
+        subst hb
+        have hsz' : (st.unplaced.size == 0) = false := by simpa using hsz
+        have inv1 := fitStep_inStep S hdet hf hw hlab st inv hwf hsz' st1 h1
+        obtain ⟨g1, hg1, hc1⟩ := fitStep_coh hts hdet hf hw hlab D g base st inv hc hwf hsz' st1 h1
+        obtain ⟨i2, g2, hg2, hc2⟩ := fitLoop_coh hts hdet hf hw hlab D base fuel g1 st1 st' h inv1 hc1 hr
+        exact ⟨i2, g2, by omega, hc2⟩
 
 end PM
